@@ -583,7 +583,7 @@ std::vector<long> tables2(char const *what)
     r.push_back(p2); // second projection
   }
   vf::rng g(vf::hash_mix(vf::opts().seed, vf::hash_str(what)));
-  for (int i = 0; i < 100; ++i)
+  for (int i = 0; i < 1000; ++i)
     r.push_back(static_cast<long>(g.below(static_cast<std::uint64_t>(n))));
   return r;
 }
@@ -628,4 +628,1916 @@ void observe(char const *name, bool ok, std::string const &text)
 }
 } // namespace
 
+// =================================================================== slice 0: optional
+#if VF_IN_SLICE(0)
+namespace
+{
+using OD = opt<D>;
+using OA = opt<A>;
+
+void o_object()
+{
+  ENTRY("optional::object");
+  row(entry, 0, [&] {
+    for (int o = 0; o < 4; ++o)
+    {
+      set_ops(o);
+      begin_eval();
+      if (o == 0)
+      {
+        OD x;
+        judge(cx, "default", x.has_value() ? 1 : 0, 0, false);
+      }
+      else
+      {
+        D src{o - 1};
+        OD x(src);
+        judge(cx, "const&", x.has_value() ? enc(x.get_unsafe()) : -1, o - 1, true);
+        begin_eval();
+        OD y(std::move(src));
+        judge(cx, "&&", y.has_value() ? enc(std::as_const(y).get_unsafe()) : -1, o - 1, true);
+        begin_eval();
+        OD z(y); // copy
+        judge(cx, "copy", enc(z) * 10 + enc(y), (1 + (o - 1)) * 11, true);
+      }
+    }
+  });
+}
+
+void o_map()
+{
+  ENTRY("optional::map");
+  for (long t = 0; t < 27; ++t)
+    row(entry, t, [&] {
+      tfn<A, D> f{1, t};
+      auto mf = f.model();
+      for (int o = 0; o < 4; ++o)
+        flavors1([&](auto fl) {
+          constexpr bool R = fl.value;
+          set_ops(o, R);
+          OD s = dec<OD>(o);
+          begin_eval();
+          OA r = fcppt::optional::map(pass<R>(s), f);
+          int want = md::present(o) ? md::some(mf(md::value(o))) : md::none;
+          judge(cx, fl1<R>(), enc(r), want, md::present(o));
+        });
+    });
+}
+
+void o_bind()
+{
+  ENTRY("optional::bind");
+  for (long t = 0; t < 64; ++t)
+    row(entry, t, [&] {
+      tfn<OA, D> f{1, t};
+      auto mf = f.model();
+      for (int o = 0; o < 4; ++o)
+        flavors1([&](auto fl) {
+          constexpr bool R = fl.value;
+          set_ops(o, R);
+          OD s = dec<OD>(o);
+          begin_eval();
+          OA r = fcppt::optional::bind(pass<R>(s), f);
+          int want = md::present(o) ? mf(md::value(o)) : md::none;
+          judge(cx, fl1<R>(), enc(r), want, md::present(o));
+        });
+    });
+}
+
+void o_monad_bind()
+{
+  ENTRY("monad::bind<optional>");
+  for (long t = 0; t < 64; ++t)
+    row(entry, t, [&] {
+      tfn<OA, D> f{1, t};
+      auto mf = f.model();
+      for (int o = 0; o < 4; ++o)
+        flavors1([&](auto fl) {
+          constexpr bool R = fl.value;
+          set_ops(o, R);
+          OD s = dec<OD>(o);
+          begin_eval();
+          OA r = fcppt::monad::bind(pass<R>(s), f);
+          int want = md::present(o) ? mf(md::value(o)) : md::none;
+          judge(cx, fl1<R>(), enc(r), want, md::present(o));
+        });
+    });
+}
+
+void o_join()
+{
+  ENTRY("optional::join");
+  using OOD = opt<OD>;
+  using OOOD = opt<OOD>;
+  row(entry, 0, [&] {
+    for (int oo = 0; oo < fin<OOD>::radix; ++oo)
+      flavors1([&](auto fl) {
+        constexpr bool R = fl.value;
+        set_ops(oo, R);
+        OOD s = dec<OOD>(oo);
+        begin_eval();
+        OD r = fcppt::optional::join(pass<R>(s));
+        judge(cx, fl1<R>(), enc(r), md::present(oo) ? md::value(oo) : md::none, md::present(oo));
+      });
+    for (int oo = 0; oo < fin<OOOD>::radix; ++oo)
+      flavors1([&](auto fl) {
+        constexpr bool R = fl.value;
+        set_ops(oo, R, 3);
+        OOOD s = dec<OOOD>(oo);
+        begin_eval();
+        OOD r = fcppt::optional::join(pass<R>(s));
+        judge(cx, fl1<R>(), enc(r), md::present(oo) ? md::value(oo) : md::none, md::present(oo));
+      });
+  });
+}
+
+void o_apply()
+{
+  [&] {
+    ENTRY("optional::apply/1");
+    for (long t = 0; t < 27; ++t)
+      row(entry, t, [&] {
+        tfn<A, D> f{1, t};
+        auto mf = f.model();
+        for (int o = 0; o < 4; ++o)
+          flavors1([&](auto fl) {
+            constexpr bool R = fl.value;
+            set_ops(o, R);
+            OD s = dec<OD>(o);
+            begin_eval();
+            OA r = fcppt::optional::apply(f, pass<R>(s));
+            int want = md::present(o) ? md::some(mf(md::value(o))) : md::none;
+            judge(cx, fl1<R>(), enc(r), want, md::present(o));
+          });
+      });
+  }();
+  [&] {
+    ENTRY("optional::apply/2");
+    for (long t : tables2("optional::apply/2"))
+      row(entry, t, [&] {
+        tfn<A, D, E> f{1, t};
+        auto mf = f.model();
+        for (int o1 = 0; o1 < 4; ++o1)
+          for (int o2 = 0; o2 < 4; ++o2)
+            flavors2([&](auto f1, auto f2) {
+              constexpr bool R1 = f1.value, R2 = f2.value;
+              set_ops(o1, o2, R1, R2);
+              OD s1 = dec<OD>(o1);
+              opt<E> s2 = dec<opt<E>>(o2);
+              begin_eval();
+              OA r = fcppt::optional::apply(f, pass<R1>(s1), pass<R2>(s2));
+              bool p = md::present(o1) && md::present(o2);
+              int want = p ? md::some(mf(md::value(o1), md::value(o2))) : md::none;
+              judge(cx, fl2<R1, R2>(), enc(r), want, p);
+            });
+      });
+  }();
+  [&] {
+    ENTRY("optional::apply/3");
+    for (long t : tables3("optional::apply/3"))
+      row(entry, t, [&] {
+        tfn<A, D, E, B> f{1, t};
+        auto mf = f.model();
+        for (int o1 = 0; o1 < 4; ++o1)
+          for (int o2 = 0; o2 < 4; ++o2)
+            for (int o3 = 0; o3 < 4; ++o3)
+              flavors1([&](auto fl) {
+                constexpr bool R = fl.value;
+                set_ops(o1, o2, o3, R);
+                OD s1 = dec<OD>(o1);
+                opt<E> s2 = dec<opt<E>>(o2);
+                opt<B> s3 = dec<opt<B>>(o3);
+                begin_eval();
+                OA r = fcppt::optional::apply(f, pass<R>(s1), pass<false>(s2), pass<R>(s3));
+                bool p = md::present(o1) && md::present(o2) && md::present(o3);
+                int want = p ? md::some(mf(md::value(o1), md::value(o2), md::value(o3))) : md::none;
+                judge(cx, R ? "&&,const&,&&" : "const&,const&,const&", enc(r), want, p);
+              });
+      });
+  }();
+}
+
+void o_maybe()
+{
+  [&] {
+    ENTRY("optional::maybe");
+    for (long t = 0; t < 27; ++t)
+      row(entry, t, [&] {
+        tfn<A, D> f{1, t};
+        auto mf = f.model();
+        for (long dt = 0; dt < 3; ++dt)
+        {
+          tfn<A> d{2, dt};
+          auto mdf = d.model();
+          for (int o = 0; o < 4; ++o)
+            flavors1([&](auto fl) {
+              constexpr bool R = fl.value;
+              set_ops(o, dt, R);
+              OD s = dec<OD>(o);
+              begin_eval();
+              A r = fcppt::optional::maybe(pass<R>(s), d, f);
+              int want = md::present(o) ? mf(md::value(o)) : mdf();
+              judge(cx, fl1<R>(), enc(r), want, md::present(o));
+            });
+        }
+      });
+  }();
+  [&] {
+    ENTRY("optional::maybe_void");
+    row(entry, 0, [&] {
+      tfn<void, D> f{1, 0};
+      auto mf = f.model();
+      for (int o = 0; o < 4; ++o)
+        flavors1([&](auto fl) {
+          constexpr bool R = fl.value;
+          set_ops(o, R);
+          OD s = dec<OD>(o);
+          begin_eval();
+          fcppt::optional::maybe_void(pass<R>(s), f);
+          if (md::present(o))
+            mf(md::value(o));
+          judge(cx, fl1<R>(), 0, 0, md::present(o));
+        });
+    });
+  }();
+  [&] {
+    ENTRY("optional::maybe_multi");
+    for (long t : tables2("optional::maybe_multi"))
+      row(entry, t, [&] {
+        tfn<A, D, E> f{1, t};
+        auto mf = f.model();
+        for (long dt = 0; dt < 3; ++dt)
+        {
+          tfn<A> d{2, dt};
+          auto mdf = d.model();
+          for (int o1 = 0; o1 < 4; ++o1)
+            for (int o2 = 0; o2 < 4; ++o2)
+              flavors2([&](auto f1, auto f2) {
+                constexpr bool R1 = f1.value, R2 = f2.value;
+                set_ops(o1, o2, dt, R1 * 2 + R2);
+                OD s1 = dec<OD>(o1);
+                opt<E> s2 = dec<opt<E>>(o2);
+                begin_eval();
+                A r = fcppt::optional::maybe_multi(d, f, pass<R1>(s1), pass<R2>(s2));
+                bool p = md::present(o1) && md::present(o2);
+                int want = p ? mf(md::value(o1), md::value(o2)) : mdf();
+                judge(cx, fl2<R1, R2>(), enc(r), want, p);
+              });
+        }
+      });
+    // unary instance: must agree with maybe
+    for (long t = 0; t < 27; ++t)
+      row(entry, 100000 + t, [&] {
+        tfn<A, D> f{1, t};
+        auto mf = f.model();
+        tfn<A> d{2, t % 3};
+        auto mdf = d.model();
+        for (int o = 0; o < 4; ++o)
+          flavors1([&](auto fl) {
+            constexpr bool R = fl.value;
+            set_ops(o, R);
+            OD s = dec<OD>(o);
+            begin_eval();
+            A r = fcppt::optional::maybe_multi(d, f, pass<R>(s));
+            int want = md::present(o) ? mf(md::value(o)) : mdf();
+            judge(cx, fl1<R>(), enc(r), want, md::present(o));
+          });
+      });
+  }();
+  [&] {
+    ENTRY("optional::maybe_void_multi");
+    row(entry, 0, [&] {
+      tfn<void, D, E> f{1, 0};
+      auto mf = f.model();
+      for (int o1 = 0; o1 < 4; ++o1)
+        for (int o2 = 0; o2 < 4; ++o2)
+          flavors2([&](auto f1, auto f2) {
+            constexpr bool R1 = f1.value, R2 = f2.value;
+            set_ops(o1, o2, R1, R2);
+            OD s1 = dec<OD>(o1);
+            opt<E> s2 = dec<opt<E>>(o2);
+            begin_eval();
+            fcppt::optional::maybe_void_multi(f, pass<R1>(s1), pass<R2>(s2));
+            bool p = md::present(o1) && md::present(o2);
+            if (p)
+              mf(md::value(o1), md::value(o2));
+            judge(cx, fl2<R1, R2>(), 0, 0, p);
+          });
+    });
+  }();
+}
+
+void o_filter()
+{
+  ENTRY("optional::filter");
+  for (long t = 0; t < 8; ++t)
+    row(entry, t, [&] {
+      tfn<bool, D> f{1, t};
+      auto mf = f.model();
+      for (int o = 0; o < 4; ++o)
+        flavors1([&](auto fl) {
+          constexpr bool R = fl.value;
+          set_ops(o, R);
+          OD s = dec<OD>(o);
+          begin_eval();
+          OD r = fcppt::optional::filter(pass<R>(s), f);
+          int want = md::present(o) && mf(md::value(o)) != 0 ? o : md::none;
+          judge(cx, fl1<R>(), enc(r), want, md::present(o));
+        });
+    });
+}
+
+void o_alternative()
+{
+  ENTRY("optional::alternative");
+  for (long t = 0; t < 4; ++t)
+    row(entry, t, [&] {
+      tfn<OD> g{1, t};
+      auto mg = g.model();
+      for (int o = 0; o < 4; ++o)
+        flavors1([&](auto fl) {
+          constexpr bool R = fl.value;
+          set_ops(o, R);
+          OD s = dec<OD>(o);
+          begin_eval();
+          OD r = fcppt::optional::alternative(pass<R>(s), g);
+          int want = md::present(o) ? o : mg();
+          // "present" here = the second alternative is evaluated
+          judge(cx, fl1<R>(), enc(r), want, !md::present(o));
+        });
+    });
+}
+
+void o_combine()
+{
+  ENTRY("optional::combine");
+  for (long t : tables2("optional::combine"))
+    row(entry, t, [&] {
+      tfn<D, D, D> f{1, t};
+      auto mf = f.model();
+      for (int o1 = 0; o1 < 4; ++o1)
+        for (int o2 = 0; o2 < 4; ++o2)
+          flavors2([&](auto f1, auto f2) {
+            constexpr bool R1 = f1.value, R2 = f2.value;
+            set_ops(o1, o2, R1, R2);
+            OD s1 = dec<OD>(o1), s2 = dec<OD>(o2);
+            begin_eval();
+            OD r = fcppt::optional::combine(pass<R1>(s1), pass<R2>(s2), f);
+            bool p = md::present(o1) && md::present(o2);
+            int want = p ? md::some(mf(md::value(o1), md::value(o2))) : (md::present(o1) ? o1 : o2);
+            judge(cx, fl2<R1, R2>(), enc(r), want, p);
+          });
+    });
+}
+
+void o_containers()
+{
+  auto const cs = containers(4);
+  [&] {
+    ENTRY("optional::cat");
+    for (std::size_t i = 0; i < cs.size(); ++i)
+      row(entry, static_cast<long>(i), [&] {
+        flavors1([&](auto fl) {
+          constexpr bool R = fl.value;
+          set_ops(static_cast<long>(i), R);
+          if (!R)
+            vf::extend_case(" container=%s", show_vec(cs[i]).c_str());
+          std::vector<OD> s = dec_vec<OD>(cs[i]);
+          begin_eval();
+          std::vector<D> r = fcppt::optional::cat<std::vector<D>>(pass<R>(s));
+          std::vector<int> want;
+          for (int c : cs[i])
+            if (md::present(c))
+              want.push_back(md::value(c));
+          judge(cx, fl1<R>(), enc_vec(r), want, !want.empty());
+        });
+      });
+  }();
+  [&] {
+    ENTRY("optional::sequence");
+    for (std::size_t i = 0; i < cs.size(); ++i)
+      row(entry, static_cast<long>(i), [&] {
+        flavors1([&](auto fl) {
+          constexpr bool R = fl.value;
+          set_ops(static_cast<long>(i), R);
+          if (!R)
+            vf::extend_case(" container=%s", show_vec(cs[i]).c_str());
+          std::vector<OD> s = dec_vec<OD>(cs[i]);
+          begin_eval();
+          opt<std::vector<D>> r = fcppt::optional::sequence<std::vector<D>>(pass<R>(s));
+          bool all = true;
+          std::vector<int> vals;
+          for (int c : cs[i])
+          {
+            if (!md::present(c))
+              all = false;
+            else
+              vals.push_back(md::value(c));
+          }
+          // encoded as: [-1] = nothing, otherwise the values
+          std::vector<int> got = r.has_value() ? enc_vec(r.get_unsafe()) : std::vector<int>{-1};
+          std::vector<int> want = all ? vals : std::vector<int>{-1};
+          judge(cx, fl1<R>(), got, want, all);
+        });
+      });
+  }();
+}
+
+void o_from_make_if()
+{
+  [&] {
+    ENTRY("optional::from");
+    for (long t = 0; t < 3; ++t)
+      row(entry, t, [&] {
+        tfn<D> d{1, t};
+        auto mdf = d.model();
+        for (int o = 0; o < 4; ++o)
+          flavors1([&](auto fl) {
+            constexpr bool R = fl.value;
+            set_ops(o, R);
+            OD s = dec<OD>(o);
+            begin_eval();
+            D r = fcppt::optional::from(pass<R>(s), d);
+            int want = md::present(o) ? md::value(o) : mdf();
+            judge(cx, fl1<R>(), enc(r), want, md::present(o));
+          });
+      });
+  }();
+  [&] {
+    ENTRY("optional::make_if");
+    for (long t = 0; t < 3; ++t)
+      row(entry, t, [&] {
+        tfn<D> d{1, t};
+        auto mdf = d.model();
+        for (int b = 0; b < 2; ++b)
+        {
+          set_ops(b);
+          begin_eval();
+          OD r = fcppt::optional::make_if(b != 0, d);
+          int want = b ? md::some(mdf()) : md::none;
+          judge(cx, "value", enc(r), want, b != 0);
+        }
+      });
+  }();
+}
+
+template <class O>
+void o_compare_one(ctx &cx, char const *tname)
+{
+  int const n = fin<O>::radix;
+  for (int a = 0; a < n; ++a)
+    for (int b = 0; b < n; ++b)
+    {
+      set_ops(a, b);
+      O const x = dec<O>(a), y = dec<O>(b);
+      begin_eval();
+      // the code order is the documented order: nothing < any value, values by their own order
+      judge(cx, (std::string(tname) + "/==").c_str(), x == y ? 1 : 0, a == b ? 1 : 0, md::present(a) && md::present(b));
+      judge(cx, (std::string(tname) + "/!=").c_str(), x != y ? 1 : 0, a != b ? 1 : 0, md::present(a) && md::present(b));
+      bool lt = md::present(a) && md::present(b) ? md::value(a) < md::value(b) : md::present(a) < md::present(b);
+      judge(cx, (std::string(tname) + "/<").c_str(), x < y ? 1 : 0, lt ? 1 : 0, md::present(a) && md::present(b));
+    }
+}
+void o_comparison()
+{
+  ENTRY("optional::comparison");
+  row(entry, 0, [&] {
+    o_compare_one<OD>(cx, "optional<D>");
+    o_compare_one<opt<OD>>(cx, "optional<optional<D>>");
+  });
+}
+
+// anchored or neighbouring functions the statement does not name: executed, compared, only observed
+void o_observed()
+{
+  std::string const entry = "observed/optional";
+  if (!vf::entry_enabled(entry))
+    return;
+  vf::set_entry(entry);
+  if (!vf::mine(vf::hash_str(entry)) || !vf::begin_case("to_exception, copy_value, deref, assign, to_container, pointers"))
+    return;
+  for (int o = 0; o < 4; ++o)
+    for (int rv = 0; rv < 2; ++rv)
+    {
+      set_ops(o, rv);
+      vf::add_evals(1);
+      // to_exception
+      {
+        OD s = dec<OD>(o);
+        lib_log().clear();
+        int got = -2;
+        auto mk = [] { lib_log().push_back(call{9, 0, NOARG, NOARG, NOARG}); return xc{1}; };
+        try
+        {
+          if (rv)
+          {
+            D r = fcppt::optional::to_exception(std::move(s), mk);
+            got = enc(r);
+          }
+          else
+          {
+            D r = fcppt::optional::to_exception(std::as_const(s), mk);
+            got = enc(r);
+          }
+        }
+        catch (xc const &x)
+        {
+          got = 100 + x.v;
+        }
+        int want = md::present(o) ? md::value(o) : 101;
+        observe("optional::to_exception", got == want && lib_log().size() == (md::present(o) ? 0U : 1U),
+                "o=" + std::to_string(o) + " got=" + std::to_string(got) + " want=" + std::to_string(want));
+      }
+      // to_container
+      {
+        OD s = dec<OD>(o);
+        // (a const lvalue source does not compile: container::make binds non-const references)
+        std::vector<D> r = fcppt::optional::to_container<std::vector<D>>(std::move(s));
+        std::vector<int> want;
+        if (md::present(o))
+          want.push_back(md::value(o));
+        observe("optional::to_container", enc_vec(r) == want, "o=" + std::to_string(o) + " got=" + show_vec(enc_vec(r)));
+      }
+      if (rv)
+        continue;
+      // from_pointer / to_pointer / copy_value / deref
+      {
+        D target{o > 0 ? o - 1 : 0};
+        D *p = o > 0 ? &target : nullptr;
+        fcppt::optional::reference<D> ref = fcppt::optional::from_pointer(p);
+        observe("optional::from_pointer", ref.has_value() == (p != nullptr) && (!p || &ref.get_unsafe().get() == p),
+                "o=" + std::to_string(o));
+        observe("optional::to_pointer", fcppt::optional::to_pointer(ref) == p, "o=" + std::to_string(o));
+        OD cp = fcppt::optional::copy_value(ref);
+        observe("optional::copy_value", enc(cp) == o, "o=" + std::to_string(o) + " got=" + std::to_string(enc(cp)));
+        opt<D *> op = p ? opt<D *>{p} : opt<D *>{};
+        auto dr = fcppt::optional::deref(op);
+        observe("optional::deref", dr.has_value() == (p != nullptr) && (!p || &dr.get_unsafe().get() == p),
+                "o=" + std::to_string(o));
+      }
+      // assign
+      for (int nv = 0; nv < 3; ++nv)
+      {
+        OD s = dec<OD>(o);
+        D &r = fcppt::optional::assign(s, D{nv});
+        observe("optional::assign", enc(s) == md::some(nv) && &r == &s.get_unsafe(),
+                "o=" + std::to_string(o) + " new=" + std::to_string(nv) + " got=" + std::to_string(enc(s)));
+      }
+    }
+}
+}
+void vf_slice_0()
+{
+  o_object();
+  o_map();
+  o_bind();
+  o_monad_bind();
+  o_join();
+  o_apply();
+  o_maybe();
+  o_filter();
+  o_alternative();
+  o_combine();
+  o_containers();
+  o_from_make_if();
+  o_comparison();
+  o_observed();
+}
+#endif
+
+// =================================================================== slice 1: either
+#if VF_IN_SLICE(1)
+namespace
+{
+using OD = opt<D>;
+using ED = eit<E, D>;
+using EA = eit<E, A>;
+
+void e_object()
+{
+  ENTRY("either::object");
+  row(entry, 0, [&] {
+    for (int e = 0; e < 6; ++e)
+    {
+      set_ops(e);
+      auto state = [](ED const &x) {
+        // 0..2 failure f, 3..5 success s; has_success and has_failure must be complementary
+        if (x.has_success() == x.has_failure())
+          return -1;
+        return x.has_success() ? md::succ(enc(x.get_success_unsafe())) : md::fail(enc(x.get_failure_unsafe()));
+      };
+      if (md::ok(e))
+      {
+        D src{md::sval(e)};
+        begin_eval();
+        ED x(src);
+        judge(cx, "success const&", state(x), e, true);
+        begin_eval();
+        ED y(std::move(src));
+        judge(cx, "success &&", state(y), e, true);
+        begin_eval();
+        ED z(y);
+        judge(cx, "copy", state(z) * 10 + state(y), e * 11, true);
+        begin_eval();
+        judge(cx, "get_success_unsafe non-const", enc(y.get_success_unsafe()), md::sval(e), true);
+      }
+      else
+      {
+        E src{md::fval(e)};
+        begin_eval();
+        ED x(src);
+        judge(cx, "failure const&", state(x), e, true);
+        begin_eval();
+        ED y(std::move(src));
+        judge(cx, "failure &&", state(y), e, true);
+        begin_eval();
+        ED z(y);
+        judge(cx, "copy", state(z) * 10 + state(y), e * 11, true);
+        begin_eval();
+        judge(cx, "get_failure_unsafe non-const", enc(y.get_failure_unsafe()), md::fval(e), true);
+      }
+    }
+  });
+}
+
+void e_match()
+{
+  ENTRY("either::match");
+  for (long t = 0; t < 27 * 27; ++t)
+    row(entry, t, [&] {
+      tfn<A, E> ff{1, t % 27};
+      tfn<A, D> sf{2, t / 27};
+      auto mff = ff.model();
+      auto msf = sf.model();
+      for (int e = 0; e < 6; ++e)
+        flavors1([&](auto fl) {
+          constexpr bool R = fl.value;
+          set_ops(e, R);
+          ED s = dec<ED>(e);
+          begin_eval();
+          A r = fcppt::either::match(pass<R>(s), ff, sf);
+          int want = md::ok(e) ? msf(md::sval(e)) : mff(md::fval(e));
+          judge(cx, fl1<R>(), enc(r), want, md::ok(e));
+        });
+    });
+}
+
+void e_map()
+{
+  [&] {
+    ENTRY("either::map");
+    for (long t = 0; t < 27; ++t)
+      row(entry, t, [&] {
+        tfn<A, D> f{1, t};
+        auto mf = f.model();
+        for (int e = 0; e < 6; ++e)
+          flavors1([&](auto fl) {
+            constexpr bool R = fl.value;
+            set_ops(e, R);
+            ED s = dec<ED>(e);
+            begin_eval();
+            EA r = fcppt::either::map(pass<R>(s), f);
+            int want = md::ok(e) ? md::succ(mf(md::sval(e))) : md::fail(md::fval(e));
+            judge(cx, fl1<R>(), enc(r), want, md::ok(e));
+          });
+      });
+  }();
+  [&] {
+    ENTRY("either::map_failure");
+    for (long t = 0; t < 27; ++t)
+      row(entry, t, [&] {
+        tfn<B, E> f{1, t};
+        auto mf = f.model();
+        for (int e = 0; e < 6; ++e)
+          flavors1([&](auto fl) {
+            constexpr bool R = fl.value;
+            set_ops(e, R);
+            ED s = dec<ED>(e);
+            begin_eval();
+            eit<B, D> r = fcppt::either::map_failure(pass<R>(s), f);
+            int want = md::ok(e) ? md::succ(md::sval(e)) : md::fail(mf(md::fval(e)));
+            // "present" = the failure continuation is to be invoked
+            judge(cx, fl1<R>(), enc(r), want, !md::ok(e));
+          });
+      });
+  }();
+}
+
+void e_bind()
+{
+  [&] {
+    ENTRY("either::bind");
+    for (long t = 0; t < 216; ++t)
+      row(entry, t, [&] {
+        tfn<EA, D> f{1, t};
+        auto mf = f.model();
+        for (int e = 0; e < 6; ++e)
+          flavors1([&](auto fl) {
+            constexpr bool R = fl.value;
+            set_ops(e, R);
+            ED s = dec<ED>(e);
+            begin_eval();
+            EA r = fcppt::either::bind(pass<R>(s), f);
+            int want = md::ok(e) ? mf(md::sval(e)) : md::fail(md::fval(e));
+            judge(cx, fl1<R>(), enc(r), want, md::ok(e));
+          });
+      });
+  }();
+  [&] {
+    ENTRY("monad::bind<either>");
+    for (long t = 0; t < 216; ++t)
+      row(entry, t, [&] {
+        tfn<EA, D> f{1, t};
+        auto mf = f.model();
+        for (int e = 0; e < 6; ++e)
+          flavors1([&](auto fl) {
+            constexpr bool R = fl.value;
+            set_ops(e, R);
+            ED s = dec<ED>(e);
+            begin_eval();
+            EA r = fcppt::monad::bind(pass<R>(s), f);
+            int want = md::ok(e) ? mf(md::sval(e)) : md::fail(md::fval(e));
+            judge(cx, fl1<R>(), enc(r), want, md::ok(e));
+          });
+      });
+  }();
+  [&] {
+    ENTRY("either::join");
+    using EED = eit<E, ED>;
+    row(entry, 0, [&] {
+      for (int ee = 0; ee < fin<EED>::radix; ++ee)
+        flavors1([&](auto fl) {
+          constexpr bool R = fl.value;
+          set_ops(ee, R);
+          EED s = dec<EED>(ee);
+          begin_eval();
+          ED r = fcppt::either::join(pass<R>(s));
+          // outer failure f1 -> f1; otherwise the inner either
+          int want = md::ok(ee) ? md::sval(ee) : md::fail(md::fval(ee));
+          judge(cx, fl1<R>(), enc(r), want, md::ok(ee));
+        });
+    });
+  }();
+}
+
+void e_apply()
+{
+  [&] {
+    ENTRY("either::apply/1");
+    for (long t = 0; t < 27; ++t)
+      row(entry, t, [&] {
+        tfn<A, D> f{1, t};
+        auto mf = f.model();
+        for (int e = 0; e < 6; ++e)
+          flavors1([&](auto fl) {
+            constexpr bool R = fl.value;
+            set_ops(e, R);
+            ED s = dec<ED>(e);
+            begin_eval();
+            EA r = fcppt::either::apply(f, pass<R>(s));
+            int want = md::ok(e) ? md::succ(mf(md::sval(e))) : md::fail(md::fval(e));
+            judge(cx, fl1<R>(), enc(r), want, md::ok(e));
+          });
+      });
+  }();
+  [&] {
+    ENTRY("either::apply/2");
+    for (long t : tables2("either::apply/2"))
+      row(entry, t, [&] {
+        tfn<A, D, B> f{1, t};
+        auto mf = f.model();
+        for (int e1 = 0; e1 < 6; ++e1)
+          for (int e2 = 0; e2 < 6; ++e2)
+            flavors2([&](auto f1, auto f2) {
+              constexpr bool R1 = f1.value, R2 = f2.value;
+              set_ops(e1, e2, R1, R2);
+              ED s1 = dec<ED>(e1);
+              eit<E, B> s2 = dec<eit<E, B>>(e2);
+              begin_eval();
+              EA r = fcppt::either::apply(f, pass<R1>(s1), pass<R2>(s2));
+              // the failure with the smallest index wins; the function only sees n successes
+              int want = !md::ok(e1)   ? md::fail(md::fval(e1))
+                         : !md::ok(e2) ? md::fail(md::fval(e2))
+                                       : md::succ(mf(md::sval(e1), md::sval(e2)));
+              judge(cx, fl2<R1, R2>(), enc(r), want, md::ok(e1) && md::ok(e2));
+            });
+      });
+  }();
+  [&] {
+    ENTRY("either::apply/3");
+    for (long t : tables3("either::apply/3"))
+      row(entry, t, [&] {
+        tfn<A, D, B, C> f{1, t};
+        auto mf = f.model();
+        for (int e1 = 0; e1 < 6; ++e1)
+          for (int e2 = 0; e2 < 6; ++e2)
+            for (int e3 = 0; e3 < 6; ++e3)
+              flavors1([&](auto fl) {
+                constexpr bool R = fl.value;
+                set_ops(e1, e2, e3, R);
+                ED s1 = dec<ED>(e1);
+                eit<E, B> s2 = dec<eit<E, B>>(e2);
+                eit<E, C> s3 = dec<eit<E, C>>(e3);
+                begin_eval();
+                EA r = fcppt::either::apply(f, pass<R>(s1), pass<false>(s2), pass<R>(s3));
+                int want = !md::ok(e1)   ? md::fail(md::fval(e1))
+                           : !md::ok(e2) ? md::fail(md::fval(e2))
+                           : !md::ok(e3) ? md::fail(md::fval(e3))
+                                         : md::succ(mf(md::sval(e1), md::sval(e2), md::sval(e3)));
+                judge(cx, R ? "&&,const&,&&" : "const&,const&,const&", enc(r), want,
+                      md::ok(e1) && md::ok(e2) && md::ok(e3));
+              });
+      });
+  }();
+}
+
+void e_sequence()
+{
+  auto const cs = containers(6);
+  ENTRY("either::sequence");
+  for (std::size_t i = 0; i < cs.size(); ++i)
+    row(entry, static_cast<long>(i), [&] {
+      vf::extend_case(" container=%s", show_vec(cs[i]).c_str());
+      flavors1([&](auto fl) {
+        constexpr bool R = fl.value;
+        set_ops(static_cast<long>(i), R);
+        std::vector<ED> s = dec_vec<ED>(cs[i]);
+        begin_eval();
+        // lvalue sources do not satisfy the constraints of either::sequence (value_type of a reference type);
+        // a const rvalue takes the copying path
+        eit<E, std::vector<D>> r = [&] {
+          if constexpr (R)
+            return fcppt::either::sequence<std::vector<D>>(std::move(s));
+          else
+            return fcppt::either::sequence<std::vector<D>>(std::move(std::as_const(s)));
+        }();
+        // first failure, else all successes; encoded as [-1, f] or the values
+        std::vector<int> want;
+        bool all = true;
+        for (int c : cs[i])
+        {
+          if (!md::ok(c))
+          {
+            want = {-1, md::fval(c)};
+            all = false;
+            break;
+          }
+          want.push_back(md::sval(c));
+        }
+        std::vector<int> got = r.has_success() ? enc_vec(r.get_success_unsafe())
+                                               : std::vector<int>{-1, enc(r.get_failure_unsafe())};
+        judge(cx, R ? "&&" : "const&&", got, want, all);
+      });
+    });
+}
+
+void e_first_success()
+{
+  auto const cs = containers(6);
+  ENTRY("either::first_success");
+  for (std::size_t i = 0; i < cs.size(); ++i)
+    row(entry, static_cast<long>(i), [&] {
+      vf::extend_case(" functions return %s", show_vec(cs[i]).c_str());
+      set_ops(static_cast<long>(i));
+      // function k (role 10+k) returns the either with code cs[i][k]
+      std::vector<tfn<ED>> fs;
+      for (std::size_t k = 0; k < cs[i].size(); ++k)
+        fs.push_back(tfn<ED>{10 + static_cast<int>(k), cs[i][k]});
+      begin_eval();
+      eit<std::vector<E>, D> r = fcppt::either::first_success(fs);
+      // model: call f_1, f_2, ... until the first success; otherwise all failures
+      std::vector<int> want{-1};
+      bool found = false;
+      for (std::size_t k = 0; k < fs.size(); ++k)
+      {
+        int c = fs[k].model()();
+        if (md::ok(c))
+        {
+          want = {-2, md::sval(c)};
+          found = true;
+          break;
+        }
+        want.push_back(md::fval(c));
+      }
+      std::vector<int> got;
+      if (r.has_success())
+        got = {-2, enc(r.get_success_unsafe())};
+      else
+      {
+        got = {-1};
+        for (int c : enc_vec(r.get_failure_unsafe()))
+          got.push_back(c);
+      }
+      judge(cx, "value", got, want, found);
+    });
+}
+
+// the script of results that _next returns one after the other; after the script: failure 0 and a BAD call
+struct script_next
+{
+  std::vector<int> const *script;
+  int *pos;
+  ED operator()() const
+  {
+    int p = (*pos)++;
+    bool in = p < static_cast<int>(script->size());
+    lib_log().push_back(call{1, p, in ? NOARG : BAD, NOARG, NOARG});
+    return dec<ED>(in ? (*script)[static_cast<std::size_t>(p)] : 0);
+  }
+};
+void e_loop()
+{
+  ENTRY("either::loop");
+  // scripts: k <= 4 arbitrary results followed by a failure; the model stops at the first failure
+  auto const cs = containers(6);
+  std::uint64_t interleave_other = 0;
+  for (std::size_t i = 0; i < cs.size(); ++i)
+    for (int last = 0; last < 3; ++last)
+      row(entry, static_cast<long>(i) * 3 + last, [&] {
+        std::vector<int> script = cs[i];
+        script.push_back(md::fail(last));
+        vf::extend_case(" script=%s", show_vec(script).c_str());
+        set_ops(static_cast<long>(i), last);
+        int pos = 0;
+        script_next next{&script, &pos};
+        tfn<void, D> sink{2, 0};
+        begin_eval();
+        E r = fcppt::either::loop(next, sink);
+        // model
+        int want = BAD;
+        calls want_next, want_loop, want_inter;
+        for (std::size_t p = 0; p < script.size(); ++p)
+        {
+          call n{1, static_cast<long>(p), NOARG, NOARG, NOARG};
+          want_next.push_back(n);
+          want_inter.push_back(n);
+          if (!md::ok(script[p]))
+          {
+            want = md::fval(script[p]);
+            break;
+          }
+          call l{2, 0, md::sval(script[p]), NOARG, NOARG};
+          want_loop.push_back(l);
+          want_inter.push_back(l);
+        }
+        // judged: the calls of _next and the calls of _loop, each in order; the interleaving is only observed
+        calls got_next, got_loop;
+        for (call const &c : lib_log())
+          (c.role == 1 ? got_next : got_loop).push_back(c);
+        if (!(lib_log() == want_inter) && got_next == want_next && got_loop == want_loop)
+          ++interleave_other;
+        lib_log() = got_next;
+        lib_log().insert(lib_log().end(), got_loop.begin(), got_loop.end());
+        model_log() = want_next;
+        model_log().insert(model_log().end(), want_loop.begin(), want_loop.end());
+        judge(cx, "value", enc(r), want, !want_loop.empty());
+      });
+  if (interleave_other)
+    vf::observation("either::loop: _loop is not called between the _next calls in " + std::to_string(interleave_other) +
+                    " scripts (interleaving is observed only)");
+}
+
+void e_from_optional()
+{
+  ENTRY("either::from_optional");
+  for (long t = 0; t < 3; ++t)
+    row(entry, t, [&] {
+      tfn<E> ff{1, t};
+      auto mff = ff.model();
+      for (int o = 0; o < 4; ++o)
+        flavors1([&](auto fl) {
+          constexpr bool R = fl.value;
+          set_ops(o, R);
+          OD s = dec<OD>(o);
+          begin_eval();
+          ED r = fcppt::either::from_optional(pass<R>(s), ff);
+          int want = md::present(o) ? md::succ(md::value(o)) : md::fail(mff());
+          judge(cx, fl1<R>(), enc(r), want, md::present(o));
+        });
+    });
+}
+
+// returns D{t} for t < 3, throws xc{t-3} otherwise
+struct thrower
+{
+  long table;
+  D operator()() const
+  {
+    lib_log().push_back(call{1, table, NOARG, NOARG, NOARG});
+    if (table >= 3)
+      throw xc{static_cast<int>(table - 3)};
+    return D{static_cast<int>(table)};
+  }
+};
+void e_try_call()
+{
+  ENTRY("either::try_call");
+  for (long t = 0; t < 27; ++t)
+    row(entry, t, [&] {
+      tfn<E, xc> conv{2, t};
+      auto mconv = conv.model();
+      for (long ft = 0; ft < 6; ++ft)
+      {
+        set_ops(ft);
+        thrower f{ft};
+        begin_eval();
+        ED r = fcppt::either::try_call<xc>(f, conv);
+        model_log().push_back(call{1, ft, NOARG, NOARG, NOARG});
+        int want = ft < 3 ? md::succ(static_cast<int>(ft)) : md::fail(mconv(static_cast<int>(ft - 3)));
+        // "present" = the function returned normally
+        judge(cx, "value", enc(r), want, ft < 3);
+      }
+    });
+}
+
+void e_opts()
+{
+  [&] {
+    ENTRY("either::success_opt");
+    row(entry, 0, [&] {
+      for (int e = 0; e < 6; ++e)
+        flavors1([&](auto fl) {
+          constexpr bool R = fl.value;
+          set_ops(e, R);
+          ED s = dec<ED>(e);
+          begin_eval();
+          OD r = fcppt::either::success_opt(pass<R>(s));
+          judge(cx, fl1<R>(), enc(r), md::ok(e) ? md::some(md::sval(e)) : md::none, md::ok(e));
+        });
+    });
+  }();
+  [&] {
+    ENTRY("either::failure_opt");
+    row(entry, 0, [&] {
+      for (int e = 0; e < 6; ++e)
+        flavors1([&](auto fl) {
+          constexpr bool R = fl.value;
+          set_ops(e, R);
+          ED s = dec<ED>(e);
+          begin_eval();
+          opt<E> r = fcppt::either::failure_opt(pass<R>(s));
+          judge(cx, fl1<R>(), enc(r), md::ok(e) ? md::none : md::some(md::fval(e)), !md::ok(e));
+        });
+    });
+  }();
+}
+
+void e_observed()
+{
+  std::string const entry = "observed/either";
+  if (!vf::entry_enabled(entry))
+    return;
+  vf::set_entry(entry);
+  if (!vf::mine(vf::hash_str(entry)) ||
+      !vf::begin_case("sequence_error, error_from_optional, to_exception, comparison, construct, make_*"))
+    return;
+  using err = fcppt::either::error<E>;
+  // sequence_error: f(x) is failure table digit (0 = no error, 1..3 = failure 0..2)
+  for (auto const &c : containers(3, 3))
+    for (long t = 0; t < 64; ++t)
+    {
+      vf::add_evals(1);
+      set_ops(t, static_cast<long>(c.size()));
+      std::vector<D> s = dec_vec<D>(c);
+      std::vector<int> seen, want_seen;
+      err r = fcppt::either::sequence_error(s, [&](D const &x) {
+        seen.push_back(enc(x));
+        int d = digit(t, enc(x), 4);
+        return d == 0 ? err{fcppt::either::no_error{}} : err{E{d - 1}};
+      });
+      int want = -1;
+      for (int x : c)
+      {
+        want_seen.push_back(x);
+        int d = digit(t, x, 4);
+        if (d != 0)
+        {
+          want = d - 1;
+          break;
+        }
+      }
+      int got = r.has_failure() ? enc(r.get_failure_unsafe()) : -1;
+      observe("either::sequence_error", got == want && seen == want_seen,
+              "table=" + std::to_string(t) + " seq=" + show_vec(c) + " got=" + std::to_string(got) +
+                  " want=" + std::to_string(want) + " calls=" + show_vec(seen));
+    }
+  for (int o = 0; o < 4; ++o)
+  {
+    vf::add_evals(1);
+    opt<E> s = dec<opt<E>>(o);
+    err r = fcppt::either::error_from_optional(std::as_const(s));
+    observe("either::error_from_optional",
+            md::present(o) ? (r.has_failure() && enc(r.get_failure_unsafe()) == md::value(o)) : r.has_success(),
+            "o=" + std::to_string(o));
+  }
+  for (int e = 0; e < 6; ++e)
+  {
+    for (long t = 0; t < 27; ++t)
+    {
+      vf::add_evals(1);
+      ED s = dec<ED>(e);
+      int got = -2, ncalls = 0;
+      try
+      {
+        D r = fcppt::either::to_exception(std::move(s), [&](E &&f) {
+          ++ncalls;
+          return xc{digit(t, enc(f), 3)};
+        });
+        got = enc(r);
+      }
+      catch (xc const &x)
+      {
+        got = 100 + x.v;
+      }
+      int want = md::ok(e) ? md::sval(e) : 100 + digit(t, md::fval(e), 3);
+      observe("either::to_exception", got == want && ncalls == (md::ok(e) ? 0 : 1),
+              "e=" + std::to_string(e) + " got=" + std::to_string(got) + " want=" + std::to_string(want));
+    }
+    for (int e2 = 0; e2 < 6; ++e2)
+    {
+      vf::add_evals(1);
+      ED const x = dec<ED>(e), y = dec<ED>(e2);
+      observe("either::comparison", (x == y) == (e == e2) && (x != y) == (e != e2),
+              "a=" + std::to_string(e) + " b=" + std::to_string(e2));
+    }
+    {
+      ED c = fcppt::either::construct(md::ok(e), [&] { return D{md::ok(e) ? md::sval(e) : 0}; },
+                                      [&] { return E{md::ok(e) ? 0 : md::fval(e)}; });
+      observe("either::construct", enc(c) == e, "e=" + std::to_string(e) + " got=" + std::to_string(enc(c)));
+      ED m = md::ok(e) ? fcppt::either::make_success<E>(D{md::sval(e)}) : fcppt::either::make_failure<D>(E{md::fval(e)});
+      observe("either::make_success/failure", enc(m) == e, "e=" + std::to_string(e));
+    }
+  }
+}
+}
+void vf_slice_1()
+{
+  e_object();
+  e_match();
+  e_map();
+  e_bind();
+  e_apply();
+  e_sequence();
+  e_first_success();
+  e_loop();
+  e_from_optional();
+  e_try_call();
+  e_opts();
+  e_observed();
+}
+#endif
+
+// =================================================================== slice 2: variant, monad helpers
+#if VF_IN_SLICE(2)
+namespace
+{
+using V = var<A, B, C>; // 9 values: codes 0..2 = A, 3..5 = B, 6..8 = C
+using W = var<D, E>;    // 6 values
+inline int vidx(int code) { return code / 3; }
+inline int vval(int code) { return code % 3; }
+
+// polymorphic continuation over the alternatives of a variant: one table over the variant's codes
+template <class R, class... Ts>
+struct pfn
+{
+  int role;
+  long table;
+  template <class X>
+  requires(std::is_same_v<std::remove_cvref_t<X>, Ts> || ...)
+  R operator()(X &&x) const
+  {
+    using T = std::remove_cvref_t<X>;
+    T local(std::forward<X>(x));
+    int c = fin<T>::enc(local);
+    int code = c < 0 ? BAD : var_off<T, Ts...>() + c;
+    lib_log().push_back(call{role, table, code, NOARG, NOARG});
+    return fin<R>::dec(code < 0 ? 0 : digit(table, code, fin<R>::radix));
+  }
+};
+// binary polymorphic continuation; the "table" is a hash seed: result = h(seed, c1, c2) mod radix
+inline int h2(long seed, int c1, int c2, int radix)
+{
+  return static_cast<int>(vf::hash_mix(vf::hash_mix(static_cast<std::uint64_t>(seed), static_cast<std::uint64_t>(c1)),
+                                       static_cast<std::uint64_t>(c2)) %
+                          static_cast<std::uint64_t>(radix));
+}
+template <class R>
+struct pfn2
+{
+  int role;
+  long seed;
+  template <class X, class Y>
+  R operator()(X &&x, Y &&y) const
+  {
+    using T1 = std::remove_cvref_t<X>;
+    using T2 = std::remove_cvref_t<Y>;
+    T1 l1(std::forward<X>(x));
+    T2 l2(std::forward<Y>(y));
+    int a = fin<T1>::enc(l1), b = fin<T2>::enc(l2);
+    int c1 = a < 0 ? BAD : var_off<T1, A, B, C>() + a;
+    int c2 = b < 0 ? BAD : var_off<T2, D, E>() + b;
+    lib_log().push_back(call{role, seed, c1, c2, NOARG});
+    return fin<R>::dec(c1 < 0 || c2 < 0 ? 0 : h2(seed, c1, c2, fin<R>::radix));
+  }
+};
+// comparison continuation for variant::compare: same types only; table over (l, r) in 3x3 -> bool
+struct cmpfn
+{
+  long table;
+  template <class T>
+  bool operator()(T const &l, T const &r) const
+  {
+    int a = fin<T>::enc(l), b = fin<T>::enc(r);
+    lib_log().push_back(call{20 + var_off<T, A, B, C>() / 3, table, a, b, NOARG});
+    return a < 0 || b < 0 ? false : digit(table, a + 3 * b, 2) != 0;
+  }
+};
+
+void v_object()
+{
+  ENTRY("variant::object");
+  row(entry, 0, [&] {
+    for (int v = 0; v < 9; ++v)
+    {
+      set_ops(v);
+      auto state = [](V const &x) -> int {
+        // through the member functions of object_impl.hpp: type_index + get_unsafe<held type>
+        if (x.is_invalid())
+          return -1;
+        switch (x.type_index())
+        {
+        case 0: return 0 + enc(x.get_unsafe<A>());
+        case 1: return 3 + enc(x.get_unsafe<B>());
+        case 2: return 6 + enc(x.get_unsafe<C>());
+        }
+        return -2;
+      };
+      V src = dec<V>(v);
+      begin_eval();
+      judge(cx, "construct", state(src), v, true);
+      begin_eval();
+      V cp(src);
+      judge(cx, "copy", state(cp) * 10 + state(src), v * 11, true);
+      begin_eval();
+      V mv(std::move(cp));
+      judge(cx, "move", state(mv), v, true);
+      // free get_unsafe: observed
+      int g = vidx(v) == 0   ? enc(fcppt::variant::get_unsafe<A>(src))
+              : vidx(v) == 1 ? enc(fcppt::variant::get_unsafe<B>(src))
+                             : enc(fcppt::variant::get_unsafe<C>(std::as_const(src)));
+      observe("variant::get_unsafe", g == vval(v), "v=" + std::to_string(v) + " got=" + std::to_string(g));
+    }
+  });
+}
+
+void v_match_apply()
+{
+  // all 3^9 functions V -> D in thorough; a stride through them in quick
+  long const n = ipow(3, 9);
+  long const step = vf::tier<long>(7, 1);
+  [&] {
+    ENTRY("variant::match");
+    for (long t = 0; t < n; t += step)
+      row(entry, t, [&] {
+        // the table over V's codes splits into the three per-alternative tables
+        tfn<D, A> fa{1, t % 27};
+        tfn<D, B> fb{2, (t / 27) % 27};
+        tfn<D, C> fc{3, t / 729};
+        auto ma = fa.model();
+        auto mb = fb.model();
+        auto mc = fc.model();
+        for (int v = 0; v < 9; ++v)
+          flavors1([&](auto fl) {
+            constexpr bool R = fl.value;
+            set_ops(v, R);
+            V s = dec<V>(v);
+            begin_eval();
+            D r = fcppt::variant::match(pass<R>(s), fa, fb, fc);
+            int want = vidx(v) == 0 ? ma(vval(v)) : vidx(v) == 1 ? mb(vval(v)) : mc(vval(v));
+            judge(cx, fl1<R>(), enc(r), want, true);
+          });
+      });
+    // "absent" for a variant = the alternatives that are not held; their continuations must stay silent,
+    // which the call-log comparison above checks on every evaluation
+    cx.absent += cx.present * 2;
+  }();
+  [&] {
+    ENTRY("variant::apply/1");
+    for (long t = 0; t < n; t += step)
+      row(entry, t, [&] {
+        pfn<D, A, B, C> f{1, t};
+        for (int v = 0; v < 9; ++v)
+          flavors1([&](auto fl) {
+            constexpr bool R = fl.value;
+            set_ops(v, R);
+            V s = dec<V>(v);
+            begin_eval();
+            D r = fcppt::variant::apply(f, pass<R>(s));
+            model_log().push_back(call{1, t, v, NOARG, NOARG});
+            judge(cx, fl1<R>(), enc(r), digit(t, v, 3), true);
+          });
+      });
+    cx.absent += cx.present * 2;
+  }();
+  [&] {
+    ENTRY("variant::apply/2");
+    vf::rng g(vf::hash_mix(vf::opts().seed, vf::hash_str("variant::apply/2")));
+    for (int i = 0, m = vf::tier(100, 3000); i < m; ++i)
+    {
+      long seed = static_cast<long>(g.below(1000000000ULL));
+      row(entry, seed, [&] {
+        pfn2<D> f{1, seed};
+        for (int v = 0; v < 9; ++v)
+          for (int w = 0; w < 6; ++w)
+            flavors2([&](auto f1, auto f2) {
+              constexpr bool R1 = f1.value, R2 = f2.value;
+              set_ops(v, w, R1, R2);
+              V s1 = dec<V>(v);
+              W s2 = dec<W>(w);
+              begin_eval();
+              D r = fcppt::variant::apply(f, pass<R1>(s1), pass<R2>(s2));
+              model_log().push_back(call{1, seed, v, w, NOARG});
+              judge(cx, fl2<R1, R2>(), enc(r), h2(seed, v, w, 3), true);
+            });
+      });
+    }
+    cx.absent += cx.present * 17;
+  }();
+}
+
+template <class T>
+void v_to_optional_one(ctx &cx, ctx &hx, int index, char const *tname)
+{
+  for (int v = 0; v < 9; ++v)
+  {
+    bool holds = vidx(v) == index;
+    flavors1([&](auto fl) {
+      constexpr bool R = fl.value;
+      set_ops(v, index, R);
+      V s = dec<V>(v);
+      begin_eval();
+      opt<T> r = fcppt::variant::to_optional<T>(pass<R>(s));
+      judge(cx, (std::string(tname) + "/" + fl1<R>()).c_str(), enc(r), holds ? md::some(vval(v)) : md::none, holds);
+    });
+    V const s = dec<V>(v);
+    begin_eval();
+    judge(hx, tname, fcppt::variant::holds_type<T>(s) ? 1 : 0, holds ? 1 : 0, holds);
+    // to_optional_ref: observed
+    {
+      V m = dec<V>(v);
+      fcppt::optional::reference<T> r = fcppt::variant::to_optional_ref<T>(m);
+      fcppt::optional::reference<T const> rc = fcppt::variant::to_optional_ref<T const>(std::as_const(m));
+      bool ok = r.has_value() == holds && rc.has_value() == holds &&
+                (!holds || (enc(r.get_unsafe().get()) == vval(v) && &r.get_unsafe().get() == &rc.get_unsafe().get()));
+      observe("variant::to_optional_ref", ok, "v=" + std::to_string(v) + " type=" + tname);
+    }
+  }
+}
+void v_to_optional()
+{
+  std::string const entry = "variant::to_optional";
+  if (!vf::entry_enabled(entry))
+    return;
+  vf::set_entry(entry);
+  ctx cx(entry), hx("variant::holds_type");
+  row(entry, 0, [&] {
+    v_to_optional_one<A>(cx, hx, 0, "A");
+    v_to_optional_one<B>(cx, hx, 1, "B");
+    v_to_optional_one<C>(cx, hx, 2, "C");
+  });
+}
+
+void v_compare()
+{
+  [&] {
+    ENTRY("variant::compare");
+    for (long t = 0; t < 512; ++t)
+      row(entry, t, [&] {
+        cmpfn cmp{t};
+        for (int a = 0; a < 9; ++a)
+          for (int b = 0; b < 9; ++b)
+          {
+            set_ops(a, b);
+            V const x = dec<V>(a), y = dec<V>(b);
+            begin_eval();
+            bool r = fcppt::variant::compare(x, y, cmp);
+            // equal iff same held type T and compare(left.get<T>(), right.get<T>())
+            bool same = vidx(a) == vidx(b);
+            bool want = false;
+            if (same)
+            {
+              model_log().push_back(call{20 + vidx(a), t, vval(a), vval(b), NOARG});
+              want = digit(t, vval(a) + 3 * vval(b), 2) != 0;
+            }
+            judge(cx, "value", r ? 1 : 0, want ? 1 : 0, same);
+          }
+      });
+  }();
+  [&] {
+    ENTRY("variant::comparison");
+    row(entry, 0, [&] {
+      for (int a = 0; a < 9; ++a)
+        for (int b = 0; b < 9; ++b)
+        {
+          set_ops(a, b);
+          V const x = dec<V>(a), y = dec<V>(b);
+          bool same = vidx(a) == vidx(b);
+          begin_eval();
+          judge(cx, "==", x == y ? 1 : 0, a == b ? 1 : 0, same);
+          judge(cx, "!=", x != y ? 1 : 0, a != b ? 1 : 0, same);
+          // (type_index, value) lexicographically
+          bool lt = vidx(a) != vidx(b) ? vidx(a) < vidx(b) : vval(a) < vval(b);
+          judge(cx, "<", x < y ? 1 : 0, lt ? 1 : 0, same);
+        }
+    });
+  }();
+}
+
+// monad::chain / do_ / return_: neither named by the statement nor anchored -> observed
+void m_observed()
+{
+  std::string const entry = "observed/monad";
+  if (!vf::entry_enabled(entry))
+    return;
+  vf::set_entry(entry);
+  if (!vf::mine(vf::hash_str(entry)) || !vf::begin_case("chain, do_, return_ over optional and either"))
+    return;
+  using OD = opt<D>;
+  using ED = eit<E, D>;
+  for (int x = 0; x < 3; ++x)
+  {
+    OD r = fcppt::monad::return_<opt<fcppt::unit>>(D{x});
+    observe("monad::return_<optional>", enc(r) == md::some(x), "x=" + std::to_string(x));
+    ED e = fcppt::monad::return_<eit<E, fcppt::unit>>(D{x});
+    observe("monad::return_<either>", enc(e) == md::succ(x), "x=" + std::to_string(x));
+  }
+  for (long t1 = 0; t1 < 64; ++t1)
+    for (long t2 = 0; t2 < 64; t2 += 3)
+      for (int o = 0; o < 4; ++o)
+      {
+        vf::add_evals(1);
+        set_ops(t1, t2, o);
+        tfn<opt<A>, D> f{1, t1};
+        tfn<opt<B>, A> g{2, t2};
+        lib_log().clear();
+        opt<B> r = fcppt::monad::chain(dec<OD>(o), f, g);
+        // bind(bind(o, f), g)
+        int mid = md::present(o) ? digit(t1, md::value(o), 4) : md::none;
+        int want = md::present(mid) ? digit(t2, md::value(mid), 4) : md::none;
+        std::size_t ncalls = (md::present(o) ? 1U : 0U) + (md::present(mid) ? 1U : 0U);
+        observe("monad::chain<optional>", enc(r) == want && lib_log().size() == ncalls,
+                "f=" + std::to_string(t1) + " g=" + std::to_string(t2) + " o=" + std::to_string(o) +
+                    " got=" + std::to_string(enc(r)) + " want=" + std::to_string(want));
+      }
+  for (long t = 0; t < 216; ++t)
+    for (int e = 0; e < 6; ++e)
+    {
+      vf::add_evals(1);
+      set_ops(t, e);
+      tfn<eit<E, A>, D> f{1, t};
+      lib_log().clear();
+      eit<E, A> r = fcppt::monad::chain(dec<ED>(e), f);
+      int want = md::ok(e) ? digit(t, md::sval(e), 6) : md::fail(md::fval(e));
+      observe("monad::chain<either>", enc(r) == want && lib_log().size() == (md::ok(e) ? 1U : 0U),
+              "f=" + std::to_string(t) + " e=" + std::to_string(e));
+    }
+  // do_: lift_a2 as in the library's own test
+  for (long t : {0L, 19682L, 7625L, 12345L, 4242L})
+    for (int o1 = 0; o1 < 4; ++o1)
+      for (int o2 = 0; o2 < 4; ++o2)
+      {
+        vf::add_evals(1);
+        set_ops(t, o1, o2);
+        OD const a = dec<OD>(o1);
+        opt<E> const b = dec<opt<E>>(o2);
+        tfn<opt<A>, D, E> f{1, t % 1000 + (t / 1000) * 0}; // table over 9 argument pairs, radix 4
+        lib_log().clear();
+        opt<A> r = fcppt::monad::do_(
+            a, [&b](auto const &) { return b; }, [&f](auto const &x, auto const &y) { return f(x, y); });
+        bool p = md::present(o1) && md::present(o2);
+        int want = p ? digit(f.table, md::value(o1) + 3 * md::value(o2), 4) : md::none;
+        observe("monad::do_<optional>", enc(r) == want && lib_log().size() == (p ? 1U : 0U),
+                "t=" + std::to_string(t) + " o1=" + std::to_string(o1) + " o2=" + std::to_string(o2) +
+                    " got=" + std::to_string(enc(r)) + " want=" + std::to_string(want));
+      }
+}
+}
+void vf_slice_2()
+{
+  v_object();
+  v_match_apply();
+  v_to_optional();
+  v_compare();
+  m_observed();
+}
+#endif
+
+// =================================================================== laws (slices 3 and 4)
+#if VF_IN_SLICE(3) || VF_IN_SLICE(4)
+namespace
+{
+struct traced
+{
+  std::vector<int> code;
+  calls log;
+};
+template <class T>
+std::vector<int> enc_any(T const &x)
+{
+  return {enc(x)};
+}
+template <class T>
+std::vector<int> enc_any(opt<std::vector<T>> const &x)
+{
+  return x.has_value() ? enc_vec(x.get_unsafe()) : std::vector<int>{-1};
+}
+template <class F, class T>
+std::vector<int> enc_any(eit<F, std::vector<T>> const &x)
+{
+  return x.has_success() ? enc_vec(x.get_success_unsafe()) : std::vector<int>{-1, enc(x.get_failure_unsafe())};
+}
+// evaluates one side of a law: its value and the calls of the continuations it made
+template <class F>
+traced trace(F const &f)
+{
+  lib_log().clear();
+  auto r = f();
+  traced t{enc_any(r), lib_log()};
+  lib_log().clear();
+  return t;
+}
+struct lawctx
+{
+  std::string family; // "optional" / "either"
+  std::string name;
+  std::uint64_t n = 0, ncalls = 0;
+  lawctx(std::string f, std::string nm) : family(std::move(f)), name(std::move(nm)) {}
+  lawctx(lawctx const &) = delete;
+  ~lawctx()
+  {
+    vf::count("laws/" + family, n);
+    vf::count("laws/" + family + "/" + name, n);
+    vf::count("calls/logged", ncalls);
+  }
+};
+void law(lawctx &lx, char const *flavor, traced const &l, traced const &r)
+{
+  ++lx.n;
+  ++g_row_evals;
+  lx.ncalls += l.log.size() + r.log.size();
+  if (!(l.code == r.code))
+    vf::violation("law/" + lx.family + "/" + lx.name + "/" + flavor + "/result", "mismatch",
+                  "lhs=" + show_vec(l.code) + " rhs=" + show_vec(r.code) + ops_text());
+  if (!(l.log == r.log))
+    vf::violation("law/" + lx.family + "/" + lx.name + "/" + flavor + "/calls", "mismatch",
+                  "lhs calls=" + show_calls(l.log) + " rhs calls=" + show_calls(r.log) + ops_text());
+}
+// a side that is just a known value (no calls)
+traced value_side(int code) { return traced{{code}, {}}; }
+
+#define LAW(fam, nm)                                                                                         \
+  std::string const entry = std::string("law/") + fam + "/" + nm;                                            \
+  if (!vf::entry_enabled(entry))                                                                             \
+    return;                                                                                                  \
+  vf::set_entry(entry);                                                                                      \
+  lawctx lx(fam, nm)
+
+// identity continuation: returns its argument by value (copies lvalues, moves rvalues)
+struct ident
+{
+  template <class X>
+  std::remove_cvref_t<X> operator()(X &&x) const
+  {
+    return std::remove_cvref_t<X>(std::forward<X>(x));
+  }
+};
+}
+#endif
+
+#if VF_IN_SLICE(3)
+namespace
+{
+using OD = opt<D>;
+using OA = opt<A>;
+using OB = opt<B>;
+
+void lo_functor()
+{
+  [&] {
+    LAW("optional", "functor-identity");
+    row(entry, 0, [&] {
+      for (int o = 0; o < 4; ++o)
+        flavors1([&](auto fl) {
+          constexpr bool R = fl.value;
+          set_ops(o, R);
+          OD s = dec<OD>(o);
+          law(lx, fl1<R>(), trace([&] { return fcppt::optional::map(pass<R>(s), ident{}); }), value_side(o));
+        });
+    });
+  }();
+  [&] {
+    LAW("optional", "functor-fusion");
+    for (long tf = 0; tf < 27; ++tf)
+      row(entry, tf, [&] {
+        tfn<A, D> f{1, tf};
+        for (long tg = 0; tg < 27; ++tg)
+        {
+          tfn<B, A> g{2, tg};
+          for (int o = 0; o < 4; ++o)
+            flavors1([&](auto fl) {
+              constexpr bool R = fl.value;
+              set_ops(tg, o, R);
+              OD s1 = dec<OD>(o), s2 = dec<OD>(o);
+              law(lx, fl1<R>(),
+                  trace([&] { return fcppt::optional::map(fcppt::optional::map(pass<R>(s1), f), g); }),
+                  trace([&] { return fcppt::optional::map(pass<R>(s2), [&](auto &&x) { return g(f(FWD(x))); }); }));
+            });
+        }
+      });
+  }();
+}
+
+void lo_monad()
+{
+  [&] {
+    LAW("optional", "monad-left-identity");
+    for (long tf = 0; tf < 64; ++tf)
+      row(entry, tf, [&] {
+        tfn<OA, D> f{1, tf};
+        for (int x = 0; x < 3; ++x)
+        {
+          set_ops(x);
+          law(lx, "value", trace([&] { return fcppt::optional::bind(fcppt::optional::make(D{x}), f); }),
+              trace([&] { return f(D{x}); }));
+        }
+      });
+  }();
+  [&] {
+    LAW("optional", "monad-right-identity");
+    row(entry, 0, [&] {
+      for (int o = 0; o < 4; ++o)
+        flavors1([&](auto fl) {
+          constexpr bool R = fl.value;
+          set_ops(o, R);
+          OD s = dec<OD>(o);
+          law(lx, fl1<R>(),
+              trace([&] { return fcppt::optional::bind(pass<R>(s), [](auto &&x) { return fcppt::optional::make(FWD(x)); }); }),
+              value_side(o));
+        });
+    });
+  }();
+  [&] {
+    LAW("optional", "monad-associativity");
+    for (long tf = 0; tf < 64; ++tf)
+      row(entry, tf, [&] {
+        tfn<OA, D> f{1, tf};
+        for (long tg = 0; tg < 64; ++tg)
+        {
+          tfn<OB, A> g{2, tg};
+          for (int o = 0; o < 4; ++o)
+            flavors1([&](auto fl) {
+              constexpr bool R = fl.value;
+              set_ops(tg, o, R);
+              OD s1 = dec<OD>(o), s2 = dec<OD>(o);
+              law(lx, fl1<R>(),
+                  trace([&] { return fcppt::optional::bind(fcppt::optional::bind(pass<R>(s1), f), g); }),
+                  trace([&] {
+                    return fcppt::optional::bind(pass<R>(s2), [&](auto &&x) { return fcppt::optional::bind(f(FWD(x)), g); });
+                  }));
+            });
+        }
+      });
+  }();
+  [&] {
+    LAW("optional", "join-is-bind-identity");
+    using OOD = opt<OD>;
+    row(entry, 0, [&] {
+      for (int oo = 0; oo < fin<OOD>::radix; ++oo)
+        flavors1([&](auto fl) {
+          constexpr bool R = fl.value;
+          set_ops(oo, R);
+          OOD s1 = dec<OOD>(oo), s2 = dec<OOD>(oo);
+          law(lx, fl1<R>(), trace([&] { return fcppt::optional::join(pass<R>(s1)); }),
+              trace([&] { return fcppt::optional::bind(pass<R>(s2), ident{}); }));
+        });
+    });
+  }();
+  [&] {
+    LAW("optional", "map-is-bind-make");
+    for (long tf = 0; tf < 27; ++tf)
+      row(entry, tf, [&] {
+        tfn<A, D> f{1, tf};
+        for (int o = 0; o < 4; ++o)
+          flavors1([&](auto fl) {
+            constexpr bool R = fl.value;
+            set_ops(o, R);
+            OD s1 = dec<OD>(o), s2 = dec<OD>(o);
+            law(lx, fl1<R>(), trace([&] { return fcppt::optional::map(pass<R>(s1), f); }), trace([&] {
+                  return fcppt::optional::bind(pass<R>(s2), [&](auto &&x) { return fcppt::optional::make(f(FWD(x))); });
+                }));
+          });
+      });
+  }();
+  [&] {
+    LAW("optional", "bind-is-join-map");
+    for (long tf = 0; tf < 64; ++tf)
+      row(entry, tf, [&] {
+        tfn<OA, D> f{1, tf};
+        for (int o = 0; o < 4; ++o)
+          flavors1([&](auto fl) {
+            constexpr bool R = fl.value;
+            set_ops(o, R);
+            OD s1 = dec<OD>(o), s2 = dec<OD>(o);
+            law(lx, fl1<R>(), trace([&] { return fcppt::optional::bind(pass<R>(s1), f); }),
+                trace([&] { return fcppt::optional::join(fcppt::optional::map(pass<R>(s2), f)); }));
+          });
+      });
+  }();
+}
+
+void lo_applicative()
+{
+  [&] {
+    LAW("optional", "apply1-is-map");
+    for (long tf = 0; tf < 27; ++tf)
+      row(entry, tf, [&] {
+        tfn<A, D> f{1, tf};
+        for (int o = 0; o < 4; ++o)
+          flavors1([&](auto fl) {
+            constexpr bool R = fl.value;
+            set_ops(o, R);
+            OD s1 = dec<OD>(o), s2 = dec<OD>(o);
+            law(lx, fl1<R>(), trace([&] { return fcppt::optional::apply(f, pass<R>(s1)); }),
+                trace([&] { return fcppt::optional::map(pass<R>(s2), f); }));
+          });
+        // homomorphism: apply(f, make(x)) == make(f(x))
+        for (int x = 0; x < 3; ++x)
+        {
+          set_ops(x, 9);
+          law(lx, "homomorphism", trace([&] { return fcppt::optional::apply(f, fcppt::optional::make(D{x})); }),
+              trace([&] { return fcppt::optional::make(f(D{x})); }));
+        }
+      });
+  }();
+  [&] {
+    LAW("optional", "apply2-is-bind-map");
+    for (long t : tables2("law/optional/apply2"))
+      row(entry, t, [&] {
+        tfn<A, D, E> f{1, t};
+        for (int o1 = 0; o1 < 4; ++o1)
+          for (int o2 = 0; o2 < 4; ++o2)
+          {
+            set_ops(o1, o2);
+            OD const a = dec<OD>(o1);
+            opt<E> const b = dec<opt<E>>(o2);
+            law(lx, "const&,const&", trace([&] { return fcppt::optional::apply(f, a, b); }), trace([&] {
+                  return fcppt::optional::bind(
+                      a, [&](D const &x) { return fcppt::optional::map(b, [&](E const &y) { return f(x, y); }); });
+                }));
+          }
+      });
+  }();
+  [&] {
+    LAW("optional", "maybe-is-from-map");
+    for (long tf = 0; tf < 27; ++tf)
+      row(entry, tf, [&] {
+        tfn<A, D> f{1, tf};
+        for (long td = 0; td < 3; ++td)
+        {
+          tfn<A> d{2, td};
+          for (int o = 0; o < 4; ++o)
+            flavors1([&](auto fl) {
+              constexpr bool R = fl.value;
+              set_ops(td, o, R);
+              OD s1 = dec<OD>(o), s2 = dec<OD>(o);
+              law(lx, fl1<R>(), trace([&] { return fcppt::optional::maybe(pass<R>(s1), d, f); }),
+                  trace([&] { return fcppt::optional::from(fcppt::optional::map(pass<R>(s2), f), d); }));
+            });
+        }
+      });
+  }();
+  [&] {
+    LAW("optional", "filter-is-bind");
+    for (long tp = 0; tp < 8; ++tp)
+      row(entry, tp, [&] {
+        tfn<bool, D> p{1, tp};
+        for (int o = 0; o < 4; ++o)
+        {
+          set_ops(o);
+          OD const s = dec<OD>(o);
+          law(lx, "const&", trace([&] { return fcppt::optional::filter(s, p); }), trace([&] {
+                return fcppt::optional::bind(s, [&](D const &x) { return p(x) ? OD{x} : OD{}; });
+              }));
+        }
+      });
+  }();
+}
+
+void lo_alternative()
+{
+  [&] {
+    LAW("optional", "alternative-associativity");
+    row(entry, 0, [&] {
+      for (int a = 0; a < 4; ++a)
+        for (int b = 0; b < 4; ++b)
+          for (int c = 0; c < 4; ++c)
+            flavors1([&](auto fl) {
+              constexpr bool R = fl.value;
+              set_ops(a, b, c, R);
+              OD s1 = dec<OD>(a), s2 = dec<OD>(a);
+              tfn<OD> tb{2, b}, tc{3, c};
+              law(lx, fl1<R>(),
+                  trace([&] { return fcppt::optional::alternative(fcppt::optional::alternative(pass<R>(s1), tb), tc); }),
+                  trace([&] {
+                    return fcppt::optional::alternative(pass<R>(s2), [&] { return fcppt::optional::alternative(tb(), tc); });
+                  }));
+            });
+    });
+  }();
+  [&] {
+    LAW("optional", "alternative-identity");
+    row(entry, 0, [&] {
+      for (int o = 0; o < 4; ++o)
+      {
+        set_ops(o);
+        law(lx, "left", trace([&] { return fcppt::optional::alternative(OD{}, [&] { return dec<OD>(o); }); }),
+            value_side(o));
+        law(lx, "right", trace([&] { return fcppt::optional::alternative(dec<OD>(o), [] { return OD{}; }); }),
+            value_side(o));
+      }
+    });
+  }();
+}
+
+void lo_sequence()
+{
+  LAW("optional", "sequence-is-fold-of-apply");
+  auto const cs = containers(4);
+  for (std::size_t i = 0; i < cs.size(); ++i)
+    row(entry, static_cast<long>(i), [&] {
+      vf::extend_case(" container=%s", show_vec(cs[i]).c_str());
+      set_ops(static_cast<long>(i));
+      std::vector<OD> const s = dec_vec<OD>(cs[i]);
+      law(lx, "const&", trace([&] { return fcppt::optional::sequence<std::vector<D>>(s); }), trace([&] {
+            opt<std::vector<D>> acc{std::vector<D>{}};
+            for (OD const &o : s)
+              acc = fcppt::optional::apply(
+                  [](std::vector<D> &&v, D const &x) {
+                    v.push_back(x);
+                    return std::move(v);
+                  },
+                  std::move(acc), o);
+            return acc;
+          }));
+    });
+}
+}
+void vf_slice_3()
+{
+  lo_functor();
+  lo_monad();
+  lo_applicative();
+  lo_alternative();
+  lo_sequence();
+}
+#endif
+
 //SLICES
+
+#if VF_SLICE < 0
+void vf_slice_0();
+void vf_slice_1();
+void vf_slice_2();
+void vf_slice_3();
+void vf_slice_4();
+namespace
+{
+void body()
+{
+  // combinators with a continuation / a held alternative: both branches must have been reached
+  for (char const *f :
+       {"optional::map", "optional::bind", "monad::bind<optional>", "optional::join", "optional::apply/1",
+        "optional::apply/2", "optional::apply/3", "optional::maybe", "optional::maybe_void", "optional::maybe_multi",
+        "optional::maybe_void_multi", "optional::filter", "optional::alternative", "optional::combine",
+        "optional::cat", "optional::sequence", "optional::from", "optional::make_if", "optional::comparison",
+        "either::match", "either::map", "either::map_failure", "either::bind", "monad::bind<either>", "either::join",
+        "either::apply/1", "either::apply/2", "either::apply/3", "either::sequence", "either::first_success",
+        "either::loop", "either::from_optional", "either::try_call", "either::success_opt", "either::failure_opt",
+        "variant::match", "variant::apply/1", "variant::apply/2", "variant::to_optional", "variant::holds_type",
+        "variant::compare", "variant::comparison"})
+  {
+    vf::require_bucket(std::string(f) + "/present");
+    vf::require_bucket(std::string(f) + "/absent");
+  }
+  for (char const *b : {"calls/logged", "laws/optional", "laws/either", "optional::object/present",
+                        "either::object/present", "variant::object/present"})
+    vf::require_bucket(b);
+  vf_slice_0();
+  vf_slice_1();
+  vf_slice_2();
+  vf_slice_3();
+  vf_slice_4();
+}
+}
+VF_MAIN(body)
+#endif
